@@ -236,9 +236,26 @@ impl Report {
 
 /// exact match, or prefix match when the listed signature ends in '*'
 pub fn sig_matches(listed: &str, sig: &str) -> bool {
-    if let Some(p) = listed.strip_suffix('*') {
-        sig.starts_with(p)
-    } else {
-        listed == sig
+    // `*` matches any run of characters
+    let parts: Vec<&str> = listed.split('*').collect();
+    if parts.len() == 1 {
+        return listed == sig;
     }
+    let mut rest = sig;
+    for (i, p) in parts.iter().enumerate() {
+        if i == 0 {
+            match rest.strip_prefix(p) {
+                Some(r) => rest = r,
+                None => return false,
+            }
+        } else if i == parts.len() - 1 {
+            return p.is_empty() || rest.ends_with(p);
+        } else {
+            match rest.find(p) {
+                Some(k) => rest = &rest[k + p.len()..],
+                None => return false,
+            }
+        }
+    }
+    true
 }
